@@ -25,7 +25,7 @@ class TagT(BaseEstimator, TransformerMixin):
         return numpy.asarray(X, dtype=float) + self.tag
 
 
-def _pred_class(base, name="TagP"):
+def _pred_class(base, name="TagP", with_transform=False):
     def fit(self, X, y=None):
         self.classes_ = numpy.array([0, 1])
         return self
@@ -40,14 +40,21 @@ def _pred_class(base, name="TagP"):
 
     def init(self, tag=1):
         self.tag = tag
+    def transform(self, X):
+        return numpy.asarray(X, dtype=float) * 2
+
     d = dict(__init__=init, fit=fit, predict=predict)
     if base is ClassifierMixin:
         d["predict_proba"] = predict_proba
+    if with_transform:          # predictors that are also transformers (KMeans, LinearDiscriminantAnalysis, ...)
+        d["transform"] = transform
     return type(name, (BaseEstimator, base), d)
 
 
 TagPR = _pred_class(RegressorMixin)
 TagPC = _pred_class(ClassifierMixin)
+TagPRT = _pred_class(RegressorMixin, with_transform=True)
+TagPCT = _pred_class(ClassifierMixin, with_transform=True)
 
 
 def kids(kind, parent, rank, i):
@@ -65,7 +72,8 @@ def build(kind, parent, rank, i, width, named, objs, clf):
         objs[i] = o
         return o, width
     if k == "pred":
-        o = (TagPC if clf else TagPR)(tag=i)
+        o = {(True, False): TagPC, (False, False): TagPR, (True, True): TagPCT, (False, True): TagPRT}[(bool(clf) and clf != 2, clf in (2, 3))](tag=i) \
+            if clf in (2, 3) else (TagPC if clf else TagPR)(tag=i)
         objs[i] = o
         return o, 1
     if k == "pass":
@@ -180,7 +188,7 @@ def observe(tid, case, variant):
     from mlinsights.plotting import pipeline2str, pipeline2dot
     kind, parent, rank = case["kind"], case["parent"], case["rank"]
     schema = ["frame", "array", "names"][variant % 3]
-    clf = variant % 2 == 0
+    clf = [True, False, 2, 3][variant % 4]        # classifier, regressor, and both again as predictor + transformer
     named = schema == "frame" and kind[0] in ("colt", "pipe")
     cols = ["a", "b", "c"]
     Xn = numpy.array([[1.0, 2.0, 3.0], [4.0, 6.0, 5.0], [7.0, 9.0, 8.0], [0.0, 2.0, 1.0]])
